@@ -34,6 +34,11 @@ func (fs *LocalFS) SetSymlinkPermissions(n NodeSymlink) error {
 	return nil
 }
 
+func lchtimes(name string, t time.Time) error {
+	// Not supported on Windows
+	return nil
+}
+
 func (fs *LocalFS) CreateDevice(n NodeDevice) error {
 	return errors.New("Device nodes not supported on this platform")
 }
